@@ -91,11 +91,43 @@ def cases(tier, rng):
                 ops += ["send @%s;746f2d%02x" % (c, ord(c))] + ["wire " + x for x in cs]
             out.append("e%d sock ROUTER / %s" % (k, " / ".join(ops)))
             k += 1
+    # announced identities that look like generated ones (libzmq style: a zero octet and a 32-bit counter) next to peers
+    # that announce none: a generated identity must not collide with any identity in use
+    for pt in ("DEALER", "REQ"):
+        ann_ids = [bytes([0, 0, 0, 0, n]) for n in (1, 2, 3, 4)]
+        cs = "abcdefgh"
+        ops = ["attach %s %s id=%s" % (c, pt, i.hex()) for c, i in zip(cs[:4], ann_ids)]
+        ops += ["attach %s %s" % (c, pt) for c in cs[4:]]
+        for c in cs:
+            body = [b"from-" + c.encode()] if pt == "DEALER" else [b"", b"from-" + c.encode()]
+            ops.append("feed %s %s" % (c, W.tok(W.msg(body))))
+        ops += ["recv"] * (len(cs) + 1)
+        for c, i in zip(cs[:4], ann_ids):
+            ops += ["send %s;746f2d%02x" % (i.hex(), ord(c))] + ["wire " + x for x in cs]
+        for c in cs[4:]:
+            ops += ["send @%s;746f2d%02x" % (c, ord(c))] + ["wire " + x for x in cs]
+        out.append("e%d sock ROUTER / %s" % (k, " / ".join(ops)))
+        k += 1
+    # identities "just ahead" of the last generated one (what a counter-like generator would hand out next) announced by
+    # some peers, then peers that announce none: a generated identity must never collide with one in use
+    for pt in ("DEALER", "REQ"):
+        for incs in ((1, 2), (1, 2, 3, 4), (2, 1)):
+            anon1, ann, anon2 = "p", "abcd"[:len(incs)], "qrst"[:len(incs) + 1]
+            ops = ["attach p %s" % pt] + ["attach %s %s id=next+%d" % (c, pt, i) for c, i in zip(ann, incs)] + ["attach %s %s" % (c, pt) for c in anon2]
+            allc = anon1 + ann + anon2
+            for c in allc:
+                body = [b"from-" + c.encode()] if pt == "DEALER" else [b"", b"from-" + c.encode()]
+                ops.append("feed %s %s" % (c, W.tok(W.msg(body))))
+            ops += ["recv"] * (len(allc) + 1)
+            for c in anon1 + anon2:
+                ops += ["send @%s;746f2d%02x" % (c, ord(c))] + ["wire " + x for x in allc]
+            out.append("n%d sock ROUTER / %s" % (k, " / ".join(ops)))
+            k += 1
     return out
 
 
 def compare_filter(line):
-    return not line.startswith("j")      # the model assumes distinct identities
+    return not line.startswith(("j", "n"))      # the model assumes distinct identities
 
 
 def norm_impl(o, line):
@@ -106,6 +138,44 @@ def judge(line, obs, orc):
     if S.bad_obs(obs):
         return "implementation " + str(obs)[:80]
     t, po = S.pair_ops_obs(line, obs)
+    if line.startswith("n"):
+        names = [op[1] for op, tk in po if op[0] == "attach"]
+        for op, tk in po:
+            if op[0] == "attach" and not tk.startswith("att:%s=ok:" % op[1]):
+                return "peer not admitted: " + tk
+            if op[0] == "attach" and ("auto-dup" in tk or "EMPTY" in tk):
+                return "a generated identity collides with an identity in use: " + tk
+        got = {}
+        for op, tk in po:
+            if op[0] == "recv" and tk.startswith("r=ok:"):
+                fr = tk[5:].split(";")
+                payload = W.untok(fr[-1]).decode()
+                who = payload[-1]
+                if fr[0] in got:
+                    return "two connections' messages carry the same label %s (%s and %s)" % (fr[0][:20], got[fr[0]], who)
+                got[fr[0]] = who
+                if fr[0].startswith("@") and fr[0][1:] != who:
+                    return "message of %s labelled as %s" % (who, fr[0])
+        if sorted(got.values()) != sorted(names):
+            return "not every connected peer's message was returned under a label of its own: got %s of %s" % (sorted(got.values()), sorted(names))
+        i = 0
+        while i < len(po):
+            op, tk = po[i]
+            if op[0] == "send":
+                who = op[1].split(";")[0][1:]
+                rest = S.frames_of_tok(op[1].split(";", 1)[1])
+                j = i + 1
+                while j < len(po) and po[j][0][0] == "wire":
+                    c = po[j][0][1]
+                    wv = po[j][1].split("=", 1)[1]
+                    want = S.enc(rest) if c == who else "-"
+                    if tk != "s=ok" or wv != want:
+                        return "message for %s: %s, wire of %s is %s (expected %s)" % (who, tk, c, wv[:40], want[:40])
+                    j += 1
+                i = j
+                continue
+            i += 1
+        return None
     if line.startswith("j"):
         # after b registered under the identity, every successful send to it is written to b and nothing to a
         seen_b = False
